@@ -43,7 +43,8 @@ DESCR_KINDS = ['update_alert_condition_source', 'update_alert_signal_condition_s
                'create_metric', 'delete_leaf', 'delete_subtree', 'update_context_descriptor', 'create_channel_with_child',
                'create_two_children_of_one_parent', 'update_parent_then_create_child', 'delete_two_children_of_one_parent',
                'create_child_then_update_parent', 'entity_write_context_descriptor_with_new_state',
-               'update_context_descriptor_and_add_state', 'entity_write_metric_descriptor_and_state']
+               'update_context_descriptor_and_add_state', 'entity_write_metric_descriptor_and_state',
+               'create_child_in_subtree_removed_in_same_transaction']
 TX_NAMES = ['metric_m0', 'metric_m1', 'alert', 'component', 'operational', 'context_new', 'context_update', 'context_two',
             'set_location', 'upd_source', 'upd_condition_signaled', 'upd_metric_descr+state', 'create_metric', 'delete_leaf',
             'delete_subtree', 'upd_context_descr', 'create_channel+child', 'create_two_children', 'delete_context_descriptor']
